@@ -560,6 +560,7 @@ listcomp: '[' expr '|' qualifier_list ']' ':' param
 expr: TOK_LET func
 {
     $$ = expr_new_func($2);
+    $$->line_no = $<line_no>1;
 };
 
 expr: expr '(' ')'
